@@ -402,7 +402,8 @@ def run_check(pid, tier, seed, workers=None, runs=None, wall=None,
         for b in blocks:
             absorb(run_block(b))
             if any(match_known(pid, v, known) is None
-                   for v in agg["violations"]) or agg["harness_errors"]:
+                   for v in agg["violations"]) \
+                    or len(agg["harness_errors"]) >= 50:
                 stop_early = True
                 break
     else:
@@ -416,7 +417,9 @@ def run_check(pid, tier, seed, workers=None, runs=None, wall=None,
                     absorb(fu.result())
                     if any(match_known(pid, v, known) is None
                            for v in agg["violations"]) \
-                            or agg["harness_errors"]:
+                            or len(agg["harness_errors"]) >= 50:
+                        # (a few harness errors do not end the batch: a
+                        # violation found later is still a verdict)
                         stop_early = True
                         for g in futs:
                             g.cancel()
@@ -445,10 +448,14 @@ def run_check(pid, tier, seed, workers=None, runs=None, wall=None,
     wall = time.time() - t0
     status = 0
     replay_path = None
-    if agg["harness_errors"]:
-        status = 2
-    elif unknown:
+    # a violation that replays in a fresh interpreter is a verdict whatever
+    # else went wrong in other runs of the batch; harness errors decide only
+    # when there is no such violation (exit 2, never together with a
+    # VIOLATION line)
+    if unknown:
         status = 1
+    elif agg["harness_errors"]:
+        status = 2
 
     if status == 1:
         v = unknown[0]
@@ -473,6 +480,9 @@ def run_check(pid, tier, seed, workers=None, runs=None, wall=None,
                         "interpreter, neither alone nor after the runs that "
                         "preceded it in its worker:\n" + tail2)
                     status = 2
+    if status == 1 and agg["harness_errors"]:
+        out("note: %d run(s) of this batch also ended in a harness error "
+            "(no verdict for those)" % len(agg["harness_errors"]))
     if status == 2:
         for he in agg["harness_errors"][:3]:
             out("HARNESS-ERROR run index %s seed %s\n%s"
